@@ -60,6 +60,9 @@ theorem ceil_div_signed_i32_correct (a b : Int) (ha : IntTy.i32.InRange a) (hb :
   have hin := hrep _ hc
   refine ⟨_, ?_, hc⟩
   have hab : (Int.tdiv a b).natAbs ≤ a.natAbs := Int.natAbs_tdiv_le_natAbs a b
+  have hr1 := tmod_abs_lt a b
+  have hr2 := tmod_sign a b
+  have hdm := Int.mul_tdiv_add_tmod a b
   gen_unfold_ceil_div_signed
   c06_norm
   generalize Int.tdiv a b = q at *
@@ -76,6 +79,9 @@ theorem ceil_div_signed_i64_correct (a b : Int) (ha : IntTy.i64.InRange a) (hb :
   have hin := hrep _ hc
   refine ⟨_, ?_, hc⟩
   have hab : (Int.tdiv a b).natAbs ≤ a.natAbs := Int.natAbs_tdiv_le_natAbs a b
+  have hr1 := tmod_abs_lt a b
+  have hr2 := tmod_sign a b
+  have hdm := Int.mul_tdiv_add_tmod a b
   gen_unfold_ceil_div_signed
   c06_norm
   generalize Int.tdiv a b = q at *
